@@ -33,6 +33,9 @@ RULE = ('cases = the outcome table of the interception decision procedure, stage
         'single send()/recv() calls inside an exchange (short write, BlockingIOError, SSLWantWriteError, SSLWantReadError, BrokenPipe, reset, '
         'timeout, EOF) at each position, intercepted and tunnelled, max_sendbuf_size 16 so that a request needs several upstream writes; each row '
         'is followed by a relay script (client data, flushes, upstream data) so that "nothing is relayed" is observed, not assumed; '
+        'a parser-failure stream inside the TLS session on every run: malformed origin status lines / header blocks (the bookkeeping response '
+        'parser raises or not - recorded where it is called - and the chunk must be relayed untouched) and follow-up requests the request parser '
+        'rejects, with output pending / pending with short writes / nothing pending / after a valid request in the same chunk; '
         'rows are crossed with CONNECT hosts (names, IPv4 and bracketed IPv6 literals): rotating in the quick tier, all hosts in the '
         'thorough tier. non-trivial = the CONNECT reached the interception decision with an upstream connection (flags, plugins '
         'and handshakes actually consulted); distinct = distinct case inputs')
@@ -46,7 +49,9 @@ TRUSTED = ['openssl / X.509 path validation / the TLS handshake are NOT modelled
            'thorough tier: real openssl 3.0 + real proxy.py + real TLS origins on loopback as supporting evidence (oracle, not proof)']
 ASSUMPTIONS = ['plugins other than do_intercept pass the CONNECT request through (before_upstream_connection / handle_client_request return it)',
                'connection pool and PROXY protocol off (defaults)',
-               'the bytes inside an intercepted session are handled by on_client_data as in C02 (pipeline_step is a Section variable)']
+               'the bytes inside an intercepted session are handled by on_client_data as in C02 (pipeline_step is a Section variable); a parser failure is '
+               'either HttpProtocolException (PipeProtocol, sampled) or another exception (PipeRaise, modelled and proved about, not sampled: the '
+               'script has no field for it)']
 SHARD = 24
 
 logging.disable(logging.CRITICAL)
@@ -421,6 +426,21 @@ def run_impl(case):
         mock.patch('proxy.common.pki.run_openssl_command', w.run_openssl_command),
         mock.patch('proxy.http.proxy.server.cert_der_to_dict', w.cert_der_to_dict),
     ]
+    # the HTTP parsers at work inside the intercepted session are oracles of the model (pipeline_step /
+    # response_step): whether they raise on a chunk is recorded where they are called, not deduced from what
+    # the handler did afterwards
+    from proxy.http.parser import HttpParser, httpParserTypes
+    from proxy.http.exception import HttpProtocolException
+    parser_raises = []
+    real_parse = HttpParser.parse
+    def logged_parse(self_, raw, *a, **kw):
+        try:
+            return real_parse(self_, raw, *a, **kw)
+        except Exception as e:
+            parser_raises.append(('request' if self_.type == httpParserTypes.REQUEST_PARSER else 'response',
+                                  isinstance(e, HttpProtocolException), repr(e)[:120]))
+            raise
+    patches.append(mock.patch.object(HttpParser, 'parse', logged_parse))
     for p in patches:
         p.start()
     out = {}
@@ -459,11 +479,13 @@ def run_impl(case):
             out['trace'] = tr
             out['step1'] = snapshot(s, r, certdir)
             pipeline = []
+            pipeline_raises, response_raises, parser_other = [], [], []
             raised = None
             for ev in case['events']:
                 if s.torn:
                     break
                 k = ev[0]
+                del parser_raises[:]
                 if k in ('c', 'u'):
                     CURRENT['answers'] = list(ev[1]) + [True] * (n_plug - len(ev[1]))
                 if k == 'c':
@@ -510,8 +532,18 @@ def run_impl(case):
                         r = s.step(r=[], w=[s.upstreams[0].name])
                 if isinstance(r, tuple):
                     raised = r[1]
+                for which, is_proto, what in parser_raises:
+                    if k == 'c' and which == 'request' and is_proto:
+                        pipeline_raises.append(ev[2])
+                    elif k == 'u' and which == 'response':
+                        response_raises.append(ev[2])
+                    else:
+                        parser_other.append((k, which, what))      # no oracle value for it: the model will disagree
             out['final'] = snapshot(s, r, certdir)
             out['pipeline'] = pipeline
+            out['pipeline_raises'] = pipeline_raises
+            out['response_raises'] = response_raises
+            out['parser_other'] = parser_other
             out['do_intercept_calls'] = CURRENT['evals']
     finally:
         for p in patches:
@@ -630,7 +662,7 @@ def coq_script(case, out):
     else:
         flush = '(FlushRaise %s)' % coq_exn(fl)
     pipeline = C.coq_list('(%s, %s)' % (B(raw), C.coq_list(B(o) for o in outs)) for raw, outs in out.get('pipeline', []))
-    return '(mkScript %s %s %s %s %s %s %s %s %s %s %s %s [] [])' % (
+    return '(mkScript %s %s %s %s %s %s %s %s %s %s %s %s %s %s)' % (
         C.coq_list(B(x) for x in ips),
         'None' if not case['connect'] else '(Some %s)' % coq_exn(case['connect']),
         chain, C.coq_list(B(n) for n in case['names']),
@@ -639,7 +671,9 @@ def coq_script(case, out):
         coq_run_result(case['openssl'][0]), coq_run_result(case['openssl'][1]), coq_run_result(case['openssl'][2]),
         flush,
         'None' if not case['client_hs'] else '(Some %s)' % coq_exn(case['client_hs']),
-        pipeline)
+        pipeline,
+        C.coq_list(B(x) for x in out.get('pipeline_raises', [])),
+        C.coq_list(B(x) for x in out.get('response_raises', [])))
 
 
 def coq_event(ev, n_plug):
@@ -874,6 +908,33 @@ def oracle(case, out):
     if upgraded:
         if not fin['cl_plain'].startswith(PKT200[:len(fin['cl_plain'])]) or fin['up_plain']:
             return 'plaintext other than the CONNECT reply left the proxy on an intercepted connection'
+        if out.get('pipeline_raises') and all(later_on):
+            # a follow-up request the parser rejects (HttpProtocolException) ends the session - but only after what the
+            # origin had already sent has reached the client, inside TLS; nothing of the rejected bytes reaches the origin
+            g = min(i for i, e in enumerate(case['events']) if e[0] == 'c' and e[2] in out['pipeline_raises'])
+            before_u = b''.join(e[2] for e in case['events'][:g] if e[0] == 'u')
+            after_u = b''.join(e[2] for e in case['events'][g:] if e[0] == 'u')
+            leftover = PKT200[len(fin['cl_plain']):]
+            got_cl = fin['cl_tls'] + b''.join(fin['cl_buf'])
+            if fin['mode'] == 0:
+                return 'intercepted session goes on after a malformed follow-up request'
+            if fin['escaped'] is not None:
+                return 'HttpProtocolException of the follow-up request parser escaped handle_events'
+            if all(benign_event(e) for e in case['events']):
+                if not got_cl.startswith(leftover + before_u) or not (leftover + before_u + after_u).startswith(got_cl):
+                    return 'origin response received before the malformed request did not reach the client intact inside TLS'
+                if 'fc' in [e[0] for e in case['events'][g:]] and (fin['mode'] != 3 or fin['cl_buf']):
+                    return 'pending output not delivered / connection not closed after the malformed request'
+            got = fin['up_tls'] + b''.join(fin['up_buf'])
+            if got != b''.join(b''.join(o) for _, o in out['pipeline']):
+                return 'bytes queued for the origin are not what on_client_data produced'
+            try:
+                ok = parse_requests(got) is not None
+            except Exception:
+                ok = False
+            if not ok:
+                return 'bytes of a rejected follow-up request reached the origin'
+            return None
         if all(later_on) and all(benign_event(e) for e in case['events']):
             if fin['mode'] != 0:
                 return 'intercepted exchange torn down although no peer failed (only short writes / would-block answers occurred)'
@@ -998,6 +1059,16 @@ def table(rng, full=True):
     rows.append(dict(kind='fault-deadend', _chain='untrusted', _fault=('cw', 7, 0)))
     rows.append(dict(kind='fault-deadend', _names='other', _fault=('ur', 'wantread', 0)))
     rows.append(dict(kind='fault-deadend', transport='reset', _fault=('uw', 'wantwrite', 1)))
+    # inside the TLS session: origin chunks the bookkeeping response parser cannot digest (relayed untouched, the
+    # exchange goes on: fix ba95ac6) and follow-up requests the request parser rejects, with and without output
+    # pending for the client (pending output is delivered first, then the connection ends)
+    for i in range(len(BAD_RESPONSES) + 2):
+        rows.append(dict(kind='resp-parse-raises', answers=[True], _badresp=i))
+    for i in range(len(GARBAGE_REQUESTS) + 1):
+        for shape in ('pending', 'pending-short-writes', 'idle', 'after-valid'):
+            if not full and shape != 'pending' and i % 2:
+                continue
+            rows.append(dict(kind='garbage-request', answers=[True] if i % 2 else [], _garbage=(i, shape)))
     # relay scripts: answers that change between calls (correspondence only), bigger exchanges
     rows.append(dict(kind='relay-flip', answers=[True], _later=[False]))
     rows.append(dict(kind='relay-flip', answers=[False], _later=[True]))
@@ -1009,8 +1080,43 @@ def table(rng, full=True):
     return rows
 
 
+BAD_RESPONSES = [b'HTTP/1.1 abc OK\r\n\r\n', b'HTTP/1.1 abc OK\r\nContent-Length: 2\r\n\r\nhi', b'HTTP/1.1 200\r\n\r\n',
+                 b'\x00\x01\x02 not http\r\n\r\n', b'HTTP/1.1 200 OK\r\nno colon in this header line\r\n\r\n',
+                 b'HTTP/1.1 200 OK\r\nContent-Length: xyz\r\n\r\nbody', b'HTTP/1.1 200 OK\r\nTransfer-Encoding: chunked\r\n\r\nzz\r\nbad\r\n',
+                 b'garbage\r\n\r\n', b'HTTP/1.1\r\n\r\n', b'\r\n\r\n']
+# request heads HttpParser rejects with HttpProtocolException (inputs it accepts leniently, or on which it raises
+# ValueError / IndexError, are C02's subject; the case type has no oracle value for the latter)
+GARBAGE_REQUESTS = [b'GARBAGE\r\n\r\n', b'GET\r\n\r\n', b'\x16\x03\x01\x00\x05hello\r\n\r\n', b'\r\n\r\n', b' \r\n\r\n']
+
+
+def stale_branch_events(c, rng, badresp, garbage):
+    """exchanges that reach the two failure branches of the relay callbacks inside the TLS session"""
+    host, port, a = c['host'], c['port'], list(c['answers'])
+    rnd = lambda n: bytes(rng.randrange(256) for _ in range(n))
+    if badresp is not None:
+        bad = BAD_RESPONSES[badresp] if badresp < len(BAD_RESPONSES) else \
+            (b'HTTP/1.1 ' + rnd(3 + badresp) + b'\r\n\r\n' if badresp == len(BAD_RESPONSES) else rnd(20) + b'\r\n\r\n')
+        return [('c', a, request_bytes(host, port, 1)), ('fu',), ('u', a, bad), ('fc',), ('c', a, request_bytes(host, port, 2)),
+                ('u', a, b'tail-' + rnd(6)), ('u', a, response_bytes(2)), ('fu',), ('fc',)]
+    i, shape = garbage
+    g = GARBAGE_REQUESTS[i] if i < len(GARBAGE_REQUESTS) else bytes(65 + rng.randrange(26) for _ in range(9)) + b'\r\n\r\n'
+    ev = [('c', a, request_bytes(host, port, 1)), ('fu',), ('u', a, response_bytes(1))]
+    if shape == 'idle':
+        ev += [('fc',), ('c', a, g), ('u', a, response_bytes(2)), ('fc',)]
+    elif shape == 'after-valid':
+        # a complete request and the garbage in one chunk: the request is queued for the origin before the parser raises
+        ev += [('c', a, request_bytes(host, port, 2) + g), ('u', a, response_bytes(2)), ('fu',), ('fc',)]
+    elif shape == 'pending-short-writes':
+        ev += [('c', a, g), ('cw', 16), ('c', a, request_bytes(host, port, 3)), ('u', a, response_bytes(2)), ('cw', 7), ('fu',), ('fc',)]
+    else:
+        ev += [('c', a, g), ('u', a, response_bytes(2)), ('fc',), ('c', a, request_bytes(host, port, 3)), ('fu',)]
+    return ev
+
+
 def make_case(row, host, rng):
     row = dict(row)
+    badresp = row.pop('_badresp', None)
+    garbage = row.pop('_garbage', None)
     ca_given = row.pop('_ca_given', True)
     chain = row.pop('_chain', None)
     names = row.pop('_names', None)
@@ -1047,6 +1153,10 @@ def make_case(row, host, rng):
     if fault is not None:
         ev = fault_events(c, rng, fault)
         c['max_send'] = 16
+    if badresp is not None or garbage is not None:
+        ev = stale_branch_events(c, rng, badresp, garbage)
+        if garbage is not None and garbage[1] == 'pending-short-writes':
+            c['max_send'] = 16
     c['events'] = ev
     return c
 
